@@ -229,6 +229,7 @@ type gen struct {
 	id    int
 	tags  []string
 	small *big.Int // cursor of the small-x search
+	thorough bool
 }
 
 func (g *gen) emit(tag, role string, klen int, ida, idb []byte, d, px, py, r, rx, ry *big.Int) {
@@ -518,6 +519,43 @@ func (g *gen) sessions(nRandom int) {
 			}
 		})
 	}
+	// i) sparse scalars (2^e, 2^e +- 1, 3*2^e; long runs of zero digits in the scalar recodings): as a long-term key, as an
+	//    ephemeral scalar, and as the exchange scalar t = (d + xbar(R) r) mod n itself (d := v - xbar(R) r); quick: every
+	//    other value, which ones depends on the seed
+	seenSp := map[string]bool{}
+	spStart := g.r.Intn(2)
+	spIdx := 0
+	for _, e := range []uint{0, 1, 63, 64, 127, 128, 129, 200, 254, 255} {
+		p2 := new(big.Int).Lsh(one, e)
+		for _, raw := range []*big.Int{p2, new(big.Int).Add(p2, one), new(big.Int).Sub(p2, one), new(big.Int).Mul(p2, big.NewInt(3))} {
+			v := new(big.Int).Mod(raw, cN)
+			if v.Sign() == 0 || seenSp[v.String()] {
+				continue
+			}
+			seenSp[v.String()] = true
+			spIdx++
+			if !g.thorough && (spIdx+spStart)%2 == 0 {
+				continue
+			}
+			vv := v
+			pos := spIdx % 4
+			rel(fmt.Sprintf("sparse-%s=%s", posNames[pos], zs(vv)), func(s *sess) { s.k[pos] = vv })
+			rel(fmt.Sprintf("sparse-tA=%s", zs(vv)), func(s *sess) {
+				d := new(big.Int).Sub(vv, xr(s.k[2]))
+				d.Mod(d, cN)
+				if d.Sign() != 0 {
+					s.k[0] = d
+				}
+			})
+			rel(fmt.Sprintf("sparse-tB=%s", zs(vv)), func(s *sess) {
+				d := new(big.Int).Sub(vv, xr(s.k[3]))
+				d.Mod(d, cN)
+				if d.Sign() != 0 {
+					s.k[1] = d
+				}
+			})
+		}
+	}
 	// g) everything random
 	for i := 0; i < nRandom; i++ {
 		g.session("sess:random", g.rnd())
@@ -669,7 +707,7 @@ func (g *gen) singles(round int) {
 
 func doGen(seed uint64, tier string, o *hx.Out) {
 	selfCheck()
-	g := &gen{r: hx.NewRng(seed), o: o, small: new(big.Int)}
+	g := &gen{r: hx.NewRng(seed), o: o, small: new(big.Int), thorough: tier == "thorough"}
 	rounds, nRandom := 1, 54
 	if tier == "thorough" {
 		rounds = 10
